@@ -119,6 +119,8 @@ def render(t, I, bind=None):
             out.append(p.kw["unit"] * n)
         elif k == "str()":
             out.append(str(eval_value(p.payload, I, bind)))
+        elif k == "format()":
+            out.append(format(eval_value(p.payload, I, bind), p.kw["spec"]))
         elif k == "repr()":
             out.append(repr(eval_value(p.payload, I, bind)))
         elif k == "repr(text)":
